@@ -31,6 +31,12 @@ from engine.tokwire import Tok, TokWire, flat, merge_slots, toks
 from engine.wire import expand, value_count
 from rules.c11_link import assigned_locals, writer_fields
 
+def _at(src: str, frag: str) -> float:
+    """position of a fragment in unparsed source; NaN (every comparison false, i.e. 'idiom not recognised') when it does not occur"""
+    i = src.find(frag)
+    return float(i) if i >= 0 else float('nan')
+
+
 LEVEL = 'other'
 RANGES = {'b': (-128, 127), 'B': (0, 255), 'h': (-32768, 32767), 'H': (0, 65535), 'i': (-2 ** 31, 2 ** 31 - 1), 'I': (0, 2 ** 32 - 1), 'l': (-2 ** 31, 2 ** 31 - 1), 'L': (0, 2 ** 32 - 1)}
 INF = float('inf')
@@ -717,12 +723,12 @@ def m1_m4_scenes_image(ctx: Any, prog: Program) -> None:
     pf, sf = mod.func('parse_scenes_image'), mod.func('save_scenes_image_sync')
     ps, ss = U(pf), U(sf)
     ok = "binformat.struct_read('<4s4i', file)" in ps and "struct.pack('<4siii', b'VSIF', version, len(scene_list), len(pool))" in ss and "deferred.defer('scene_offset', '<i', write=True)" in ss \
-        and ss.index("struct.pack('<4siii'") < ss.index("deferred.defer('scene_offset'") < ss.index("deferred.defer('pool_offsets'")
+        and _at(ss, "struct.pack('<4siii'") < _at(ss, "deferred.defer('scene_offset'") < _at(ss, "deferred.defer('pool_offsets'")
     ctx.shape('C20.M1', ok, mod, sf, 'header: magic, version, scene count, string count, scene table offset - the deferred offset directly follows the packed part', func='save_scenes_image_sync', text='scenes.image header')
     ok = "magic, version, scene_count, string_count, scene_off" in ps.replace('[', '').replace(']', '').replace('\n', ' ').replace('    ', '')
     ctx.shape('C20.M1', ok, mod, pf, 'header fields unpacked in the written order', func='parse_scenes_image', text='scenes.image header linkage')
     ok = "binformat.struct_read('<Iiii', file)" in ps and "struct.pack('<I', entry.checksum)" in ss and "deferred.defer(('data', entry.checksum), '<ii', write=True)" in ss and "deferred.defer(('summary', entry.checksum), '<i', write=True)" in ss \
-        and ss.index("struct.pack('<I', entry.checksum)") < ss.index("deferred.defer(('data'") < ss.index("deferred.defer(('summary'") and 'crc, data_off, data_size, summary_off' in ps.replace('(', '').replace(')', '').replace('\n', ' ').replace('    ', '')
+        and _at(ss, "struct.pack('<I', entry.checksum)") < _at(ss, "deferred.defer(('data'") < _at(ss, "deferred.defer(('summary'") and 'crc, data_off, data_size, summary_off' in ps.replace('(', '').replace(')', '').replace('\n', ' ').replace('    ', '')
     ctx.shape('C20.M1', ok, mod, sf, 'entry record: checksum, (data offset, data size), summary offset - in this order on both sides', func='save_scenes_image_sync', text='scenes.image entry record')
     for ver in (3, 2):
         r = TokWire(mod, fold, {'version == 3': ver == 3}, ignore=('binformat.decompress_lzma',))
@@ -807,7 +813,7 @@ def m1_m4_scenes_image(ctx: Any, prog: Program) -> None:
                       text='pool key is the string itself')
         else:
             ctx.shape('C20.M4', False, mod, fi[0], f'pool key function `{U(key)}` not recognised', func='save_scenes_image_sync', text='pool key is the string itself')
-    ok = "entry_to_data[entry] = entry.data.export_binary(add_to_pool)" in ss and 'for sound in entry.sounds:\n            add_to_pool(sound)' in ss and ss.index('add_to_pool(sound)') < ss.index("struct.pack('<4siii'")
+    ok = "entry_to_data[entry] = entry.data.export_binary(add_to_pool)" in ss and 'for sound in entry.sounds:\n            add_to_pool(sound)' in ss and _at(ss, 'add_to_pool(sound)') < _at(ss, "struct.pack('<4siii'")
     ctx.shape('C20.M4', ok, mod, sf, 'all sounds and scene strings are pooled before the pool size is written', func='save_scenes_image_sync', text='pool complete before header')
 
 
